@@ -1530,11 +1530,18 @@ func (c *Context) Reduce(d, x *Decimal) (int, Condition, error) {
 		return 0, res, err
 	}
 	neg := x.Negative
+	// The count is that of the trailing zeros of x, whatever the rounding
+	// does to them. Take it before d, which can be x, is written.
+	var stripped Decimal
+	_, n := stripped.Reduce(x)
 	// Round first: a rounding carry (9.95 -> 10) creates trailing zeros that
 	// have to be removed as well.
 	res := c.round(d, x)
-	_, n := d.Reduce(d)
-	d.Negative = neg
+	d.Reduce(d)
+	if d.Form != NaN {
+		// Decimal.Reduce drops the sign of a zero.
+		d.Negative = neg
+	}
 	res, err := c.goError(res)
 	return n, res, err
 }
